@@ -152,6 +152,19 @@ class ScriptedApi:
             out = "exc:" + exc_name(e)
         return "".join(f + "|" for f in self.frames) + out
 
+    async def run_on(self, kind, args, now):
+        """one more operation on the connection as it is: the script loaded earlier goes on, nothing is reset -> the outcome only
+        (the frames accumulate in self.frames)"""
+        try:
+            if self.hung: raise asyncio.TimeoutError()
+            with time_machine.travel(float(now), tick=False):
+                r = await asyncio.wait_for(call_op(self.api, kind, args), self.patience)
+            return show_response(kind, r)
+        except asyncio.TimeoutError:
+            self.hung = True; return "exc:NeverReturned"
+        except Exception as e:
+            return "exc:" + exc_name(e)
+
 
 class VirtualLoop(asyncio.SelectorEventLoop):
     """Event loop on a virtual clock: when nothing is ready the clock jumps to the next timer, so a scripted device may take
@@ -530,10 +543,13 @@ async def feed_bridge(n_ports, events, raising=(), show=None, sentinel=None, ser
                     for _ in range(4): await asyncio.sleep(0.001)
                 elif i % 8 == 7: await asyncio.sleep(0)
             for p in range(n_ports): tx.sendto(sentinel(p), ("127.0.0.1", ports[p]))
-            for _ in range(3000):
+            # a barrier that does not come back costs 3 s; when that has happened several times in this process the bridge under test
+            # evidently drops the barrier frame itself: no point in waiting long again (the run is failing already)
+            for _ in range(3000 if getattr(feed_bridge, "lost", 0) < 4 else 150):
                 if len(seen_sentinel) == n_ports: break
                 await asyncio.sleep(0.001)
             complete = len(seen_sentinel) == n_ports
+            if not complete: feed_bridge.lost = getattr(feed_bridge, "lost", 0) + 1
         finally:
             await bridge.stop(); tx.close(); await asyncio.sleep(0)
             loop.set_exception_handler(old)
